@@ -13,6 +13,8 @@
 // proxy ops:  E,k0,k1[,w...]  evaluate an individual whose signature is
 //             (k0,k1); w... is what the wrapped evaluator returns at this
 //             moment if it is called          C  proxy.clear()
+//             S  proxy.save(stream); a newly built proxy loads the stream
+//                (evaluator_proxy::save/load, the path of search::close/init)
 //   D <bits> <examples> <gap> <seed> <op>...   the proxy around an evaluator
 //             that reads the CURRENT training set of a src_problem driven by
 //             the real vita::dss (oracle only, no model), one proxy on the
@@ -116,6 +118,9 @@ struct counting_evaluator : public evaluator<ind>
   fitness_t now;            // what an evaluation returns at this moment
   unsigned calls = 0;
   fitness_t operator()(const ind &) override { ++calls; return now; }
+  // its own serialisation: one marker number, checked when read back
+  bool save(std::ostream &out) const override { out << 4242 << '\n'; return out.good(); }
+  bool load(std::istream &in) override { unsigned m; return (in >> m) && m == 4242; }
 };
 
 static void table_script(unsigned bits, const std::vector<std::string> &ops, std::size_t from,
@@ -163,7 +168,8 @@ static void table_script(unsigned bits, const std::vector<std::string> &ops, std
 static void proxy_script(unsigned bits, const std::vector<std::string> &ops, std::size_t from,
                          std::ostream &out)
 {
-  evaluator_proxy<ind, counting_evaluator> proxy(counting_evaluator(), bits);
+  using proxy_t = evaluator_proxy<ind, counting_evaluator>;
+  auto proxy(std::make_unique<proxy_t>(counting_evaluator(), bits));
   for (std::size_t n(from); n < ops.size(); ++n)
   {
     const auto p(split(ops[n], ','));
@@ -171,17 +177,29 @@ static void proxy_script(unsigned bits, const std::vector<std::string> &ops, std
     if (o == 'E')
     {
       ind x{hash_t(unhex(p[1]), unhex(p[2]))};
-      proxy.eva_.now = parse_fit(p, 3);
-      const unsigned before(proxy.eva_.calls);
-      const fitness_t f(proxy(x));
-      out << "e=" << show_fit(f) << '/' << (proxy.eva_.calls - before) << ' ';
+      proxy->eva_.now = parse_fit(p, 3);
+      const unsigned before(proxy->eva_.calls);
+      const fitness_t f((*proxy)(x));
+      out << "e=" << show_fit(f) << '/' << (proxy->eva_.calls - before) << ' ';
     }
     else if (o == 'C')
-      proxy.clear();
+      proxy->clear();
+    else if (o == 'S')
+    {
+      // what search::close() / the next session's search::init() do with the
+      // training evaluator: evaluator_proxy::save, then evaluator_proxy::load
+      // into a newly built proxy
+      std::stringstream ss;
+      const bool ok_s(proxy->save(ss));
+      auto p2(std::make_unique<proxy_t>(counting_evaluator(), bits));
+      const bool ok_l(p2->load(ss));
+      out << "s=" << (ok_s && ok_l) << '|' << dump(proxy->cache_) << '|' << dump(p2->cache_) << ' ';
+      proxy = std::move(p2);
+    }
     else
       out << "BADOP ";
   }
-  out << "D=" << dump(proxy.cache_) << '\n';
+  out << "D=" << dump(proxy->cache_) << '\n';
 }
 
 // fitness = f(signature, current training set): the sum of the labels of the
